@@ -941,14 +941,16 @@ func c09CheckCardinality(w *World, r *Report) {
 	sfd, sp := w.FuncDecl(st)
 	checkI := w.interfaceMethod("parse", "Node", "check")
 	hasCheck := false
-	ast.Inspect(sfd.Body, func(n ast.Node) bool {
-		if ce, ok := n.(*ast.CallExpr); ok {
-			if c := calleeOf(sp, ce); c == cm || c == checkI {
-				hasCheck = true
+	for _, cfd := range localHelperDecls(w, sp, st) {
+		ast.Inspect(cfd.Body, func(n ast.Node) bool {
+			if ce, ok := n.(*ast.CallExpr); ok {
+				if c := calleeOf(sp, ce); c == cm || c == checkI {
+					hasCheck = true
+				}
 			}
-		}
-		return true
-	})
+			return true
+		})
+	}
 	r.Check(hasCheck, "R09.7", "Tree.stmt checks the node", sfd.Pos(), "calls check() on the node it builds", "Tree.stmt no longer validates the statement it has built")
 }
 
